@@ -348,7 +348,7 @@ theorem dead_not_valid {e : Entry} {sid : Nat} {parent : Option Nat} {ct : Nat} 
 whose OAuth2 session or parent login session has been revoked or has expired, is rejected by the
 refresh grant (state untouched), is never reported active by introspection, and is refused by
 userinfo — whichever client presents it and whatever else the request says. -/
-theorem dead_rejected_everywhere (w : World) (e : Entry) (ct : Nat) :
+theorem dead_rejected_everywhere_raw (w : World) (e : Entry) (ct : Nat) :
     (∀ c key (rt : RefreshTok) req, w.acct rt.acct = some e → Dead e rt.sid rt.parent ct →
         ∃ err, exchangeRefresh w c (.refresh key rt) req ct = (w, .error err)) ∧
     (∀ key (a : AccessTok), w.acct a.acct = some e → Dead e a.sid a.parent ct →
@@ -398,7 +398,7 @@ theorem dead_rejected_everywhere (w : World) (e : Entry) (ct : Nat) :
 
 /-- The same for the code grant: an account outside its window, or an authorising login session
 that is revoked or expired, and the code yields nothing (D12, and its expiry half). -/
-theorem dead_code_rejected (hash : Nat → Nat) (w : World) (c : TClient) (key : Nat) (cd : ExchangeCode)
+theorem dead_code_rejected_raw (hash : Nat → Nat) (w : World) (c : TClient) (key : Nat) (cd : ExchangeCode)
     (redirect : Nat) (verifier : Option Nat) (ct : Nat) (e : Entry)
     (ha : w.acct cd.accountUuid = some e)
     (hd : withinWindow e ct = false ∨ ParentDead e cd.sessionId ct) :
@@ -437,7 +437,7 @@ theorem dead_code_rejected (hash : Nat → Nat) (w : World) (c : TClient) (key :
       · exact absurd hpd ht.parentLive
 
 /-- Every token's own expiry: at or after `exp` (whole seconds) nothing is redeemable. -/
-theorem expired_token_rejected (hash : Nat → Nat) (w : World) (ct : Nat) :
+theorem expired_token_rejected_raw (hash : Nat → Nat) (w : World) (ct : Nat) :
     (∀ c key (cd : ExchangeCode) u v, cd.expiry ≤ asSecs ct →
         ∃ err, exchangeCode hash w c (.code key cd) u v ct = (w, .error err)) ∧
     (∀ c key (rt : RefreshTok) req, rt.exp ≤ asSecs ct →
@@ -482,7 +482,7 @@ def LoginRevoked (w : World) (a p : Nat) : Prop := ∃ e, w.acct a = some e ∧ 
 (unexpired, account and sessions valid) but older, in whole seconds, than the last re-issue of its
 session is refused with `invalid_grant`, the session is revoked by that very request, and the
 caller commits the revocation. -/
-theorem reuse_revokes_session (w : World) (c : TClient) (rt : RefreshTok) (req : Option (List Nat))
+theorem reuse_revokes_session_raw (w : World) (c : TClient) (rt : RefreshTok) (req : Option (List Nat))
     (ct : Nat) (e : Entry) (s : Sess)
     (hexp : asSecs ct < rt.exp) (ha : w.acct rt.acct = some e)
     (hv : acctValid e rt.sid rt.parent rt.iat ct = true)
@@ -609,7 +609,7 @@ theorem reuse_revokes_full_false : ¬ reuse_revokes_full := by
 /-- The partial statement that *is* true: once the rotation happened in a later second than the
 token's `iat` and extended the session, presenting the rotated token again — right after, at any
 later instant at which it would otherwise still be honoured — revokes the session. -/
-theorem reuse_after_rotation_revokes {w w1 : World} {c : TClient} {rt : RefreshTok} {req1 req2 : Option (List Nat)}
+theorem reuse_after_rotation_revokes_raw {w w1 : World} {c : TClient} {rt : RefreshTok} {req1 req2 : Option (List Nat)}
     {ct1 ct2 : Nat} {r1 : Resp} {e : Entry} {s : Sess}
     (hrot : exchangeRefresh w c (.refresh c.base.uuid rt) req1 ct1 = (w1, .ok r1))
     (ha : w.acct rt.acct = some e) (hs : lookup e.o2s rt.sid = some s)
@@ -620,7 +620,7 @@ theorem reuse_after_rotation_revokes {w w1 : World} {c : TClient} {rt : RefreshT
     ∃ w2, exchangeRefresh w1 c (.refresh c.base.uuid rt) req2 ct2 = (w2, .error .invalidGrant) ∧
       O2Revoked w2 rt.acct rt.sid := by
   obtain ⟨e1, s1, he1, hs1, hiss⟩ := rotation_stamps_session hrot ha hs hext
-  obtain ⟨w2, h2, hrev, _⟩ := reuse_revokes_session w1 c rt req2 ct2 e1 s1 hexp he1 (hvalid e1 he1) hs1 (by rw [hiss]; exact hlater)
+  obtain ⟨w2, h2, hrev, _⟩ := reuse_revokes_session_raw w1 c rt req2 ct2 e1 s1 hexp he1 (hvalid e1 he1) hs1 (by rw [hiss]; exact hlater)
   exact ⟨w2, h2, hrev⟩
 
 /-! ## 6. Histories: what is revoked stays revoked, whatever happens next -/
@@ -957,7 +957,7 @@ theorem token_endpoint_only_own_client {hash : Nat → Nat} {w w' : World}
           apply h4
           cases hv : valid with
           | true => rfl
-          | false => simp [exchangeCC, hv] at hd
+          | false => simp [exchangeCC, hv, ccAuthOk] at hd
         · cases g with
           | code t u v =>
             obtain ⟨cd, _, _, _, _, _, hacc, _⟩ := exchange_code_grant (by simpa [dispatch] using hd)
@@ -1099,5 +1099,69 @@ example : isOkB (exchangeRefresh witnessWorld witnessClient (.refresh 400 witnes
 
 example : Dead { Entry.fresh (some 500) with o2s := [(1000, ⟨.revokedAt 3, 0, 0⟩)] } 1000 none 5 :=
   Or.inr ⟨_, rfl, Or.inl (Or.inl ⟨3, rfl⟩)⟩
+
+/-! ## 9. The refusal theorems, stated through `Refused` / `Fails`
+
+(The same statements as the `_raw` versions above, with "the endpoint answers some `Oauth2Error`
+and leaves / moves the state to `w'`" folded into two words.) -/
+
+/-- The token endpoint's grant function refuses the request with `e`, the state becoming `w'`. -/
+def RefusedWith {α : Type} (x : World × Except OErr α) (w' : World) (e : OErr) : Prop := x = (w', Except.error e)
+
+/-- … refuses it with some `Oauth2Error`. -/
+def Refused {α : Type} (x : World × Except OErr α) (w' : World) : Prop := ∃ e, RefusedWith x w' e
+
+/-- A read endpoint answers some `Oauth2Error`. -/
+def Fails {α : Type} (x : Except OErr α) : Prop := ∃ e, x = Except.error e
+
+/-- **Third sentence of the property** (see `dead_rejected_everywhere_raw`). -/
+theorem dead_rejected_everywhere (w : World) (e : Entry) (ct : Nat) :
+    (∀ c key (rt : RefreshTok) req, w.acct rt.acct = some e → Dead e rt.sid rt.parent ct →
+        Refused (exchangeRefresh w c (.refresh key rt) req ct) w) ∧
+    (∀ key (a : AccessTok), w.acct a.acct = some e → Dead e a.sid a.parent ct →
+        ∀ x, introspect w (.access key a) ct = .ok x → x = .inactive) ∧
+    (∀ key (a : ClientAccessTok), w.acct a.acct = some e → Dead e a.sid none ct →
+        ∀ x, introspect w (.clientAccess key a) ct = .ok x → x = .inactive) ∧
+    (∀ id key (a : AccessTok), w.acct a.acct = some e → Dead e a.sid a.parent ct →
+        Fails (userinfo w id (.access key a) ct)) :=
+  dead_rejected_everywhere_raw w e ct
+
+theorem dead_code_rejected (hash : Nat → Nat) (w : World) (c : TClient) (key : Nat) (cd : ExchangeCode)
+    (redirect : Nat) (verifier : Option Nat) (ct : Nat) (e : Entry)
+    (ha : w.acct cd.accountUuid = some e)
+    (hd : withinWindow e ct = false ∨ ParentDead e cd.sessionId ct) :
+    Refused (exchangeCode hash w c (.code key cd) redirect verifier ct) w :=
+  dead_code_rejected_raw hash w c key cd redirect verifier ct e ha hd
+
+theorem expired_token_rejected (hash : Nat → Nat) (w : World) (ct : Nat) :
+    (∀ c key (cd : ExchangeCode) u v, cd.expiry ≤ asSecs ct →
+        Refused (exchangeCode hash w c (.code key cd) u v ct) w) ∧
+    (∀ c key (rt : RefreshTok) req, rt.exp ≤ asSecs ct →
+        Refused (exchangeRefresh w c (.refresh key rt) req ct) w) ∧
+    (∀ key (a : AccessTok), a.exp ≤ asSecs ct →
+        ∀ x, introspect w (.access key a) ct = .ok x → x = .inactive) ∧
+    (∀ id key (a : AccessTok), a.exp ≤ asSecs ct → Fails (userinfo w id (.access key a) ct)) :=
+  expired_token_rejected_raw hash w ct
+
+theorem reuse_revokes_session (w : World) (c : TClient) (rt : RefreshTok) (req : Option (List Nat))
+    (ct : Nat) (e : Entry) (s : Sess)
+    (hexp : asSecs ct < rt.exp) (ha : w.acct rt.acct = some e)
+    (hv : acctValid e rt.sid rt.parent rt.iat ct = true)
+    (hs : lookup e.o2s rt.sid = some s) (hrot : rt.iat < asSecs s.issued) :
+    ∃ w', RefusedWith (exchangeRefresh w c (.refresh c.base.uuid rt) req ct) w' .invalidGrant ∧
+      O2Revoked w' rt.acct rt.sid ∧ commitOnErr .invalidGrant = true :=
+  reuse_revokes_session_raw w c rt req ct e s hexp ha hv hs hrot
+
+theorem reuse_after_rotation_revokes {w w1 : World} {c : TClient} {rt : RefreshTok} {req1 req2 : Option (List Nat)}
+    {ct1 ct2 : Nat} {r1 : Resp} {e : Entry} {s : Sess}
+    (hrot : exchangeRefresh w c (.refresh c.base.uuid rt) req1 ct1 = (w1, .ok r1))
+    (ha : w.acct rt.acct = some e) (hs : lookup e.o2s rt.sid = some s)
+    (hext : ∀ x, s.state = .expiresAt x → x < sessionExpiry ct1 c.refreshExpiry)
+    (hlater : rt.iat < asSecs ct1)
+    (hexp : asSecs ct2 < rt.exp)
+    (hvalid : ∀ e1, w1.acct rt.acct = some e1 → acctValid e1 rt.sid rt.parent rt.iat ct2 = true) :
+    ∃ w2, RefusedWith (exchangeRefresh w1 c (.refresh c.base.uuid rt) req2 ct2) w2 .invalidGrant ∧
+      O2Revoked w2 rt.acct rt.sid :=
+  reuse_after_rotation_revokes_raw hrot ha hs hext hlater hexp hvalid
 
 end Kanidm.OAuth2.Token
